@@ -131,25 +131,26 @@ WkRead2(t) == /\ pc[t] = "wk_r2"
               /\ Set(t, "wk_rmw", [lv[t] EXCEPT !.wktq = WakeTarget(lv[t].wdqf, lv[t].wdu, lv[t].wkf)])
               /\ UNCHANGED <<src, lane, exe, kern, cli, gh>>
 \* _dispatch_queue_wakeup: the dq_state rmw loop (+ push), or _dispatch_lane_class_barrier_complete
+WkDone(t) == Set(t, lv[t].wkret, [lv[t] EXCEPT !.wkf = {}, !.wdqf = {}, !.wdu = DU0, !.wktq = "none", !.wkret = "idle"])
 WkRmw(t) ==
     /\ pc[t] = "wk_rmw"
     /\ LET q == lv[t].wktq IN
        IF "bc" \in lv[t].wkf THEN
             \* the caller owns the drain lock (cancel_and_wait try-lock path)
-            IF Suspended THEN /\ lane' = [lane EXCEPT !.lock = NULL] /\ exe' = exe /\ Go(t, lv[t].wkret)
+            IF Suspended THEN /\ lane' = [lane EXCEPT !.lock = NULL] /\ exe' = exe /\ WkDone(t)
             ELSE IF q # "none" THEN
                  /\ lane' = [lane EXCEPT !.lock = NULL, !.enq = IF @ = "none" THEN q ELSE @]
                  /\ exe' = IF lane.enq = "none" THEN Push(exe, q) ELSE exe
-                 /\ Go(t, lv[t].wkret)
-            ELSE IF lane.dirty THEN /\ UNCHANGED <<lane, exe>> /\ Go(t, "wk_bcxor")
-            ELSE /\ lane' = [lane EXCEPT !.lock = NULL] /\ exe' = exe /\ Go(t, lv[t].wkret)
+                 /\ WkDone(t)
+            ELSE IF lane.dirty THEN /\ UNCHANGED <<lane, exe>> /\ Go(t, "wk_bcxor") /\ lv' = lv
+            ELSE /\ lane' = [lane EXCEPT !.lock = NULL] /\ exe' = exe /\ WkDone(t)
        ELSE IF q # "none" THEN
             LET canEnq == ~Suspended /\ lane.enq = "none" /\ lane.lock = NULL IN
             /\ lane' = [lane EXCEPT !.enq = IF canEnq THEN q ELSE @, !.dirty = @ \/ "dirty" \in lv[t].wkf]
             /\ exe' = IF canEnq THEN Push(exe, q) ELSE exe
-            /\ Go(t, lv[t].wkret)
-       ELSE /\ UNCHANGED <<lane, exe>> /\ Go(t, lv[t].wkret)
-    /\ UNCHANGED <<src, kern, lv, cli, gh>>
+            /\ WkDone(t)
+       ELSE /\ UNCHANGED <<lane, exe>> /\ WkDone(t)
+    /\ UNCHANGED <<src, kern, cli, gh>>
 \* give-up of barrier_complete: os_atomic_xor2o(dq_state, DIRTY); dx_wakeup again
 WkBcXor(t) == /\ pc[t] = "wk_bcxor" /\ lane' = [lane EXCEPT !.dirty = FALSE] /\ Go(t, "wk_r1")
               /\ UNCHANGED <<src, exe, kern, lv, cli, gh>>
@@ -182,15 +183,11 @@ UFinal(t) ==
 
 (* ============================ dispatch_source_cancel ============================ *)
 \* entered with lv.ctx in {"handler", "tqitem", "foreign"} and lv.ccont
-CCall(t) ==
-    /\ pc[t] = "c_call"
-    /\ gh' = [gh EXCEPT !.ownCancel = @ \/ lv[t].ctx = "handler" \/ (lv[t].ctx = "tqitem" /\ TargetSerial)]
-    /\ Go(t, "c_or")
-    /\ UNCHANGED <<src, lane, exe, kern, lv, cli>>
 COr(t) ==
     /\ pc[t] = "c_or"
     /\ src' = [src EXCEPT !.dqf = FCancelOr(@)]
-    /\ gh' = [gh EXCEPT !.foreignOr = @ \/ lv[t].ctx \in {"foreign", "tqitem"}]
+    /\ gh' = [gh EXCEPT !.foreignOr = @ \/ lv[t].ctx \in {"foreign", "tqitem"},
+                        !.ownCancel = @ \/ lv[t].ctx = "handler" \/ (lv[t].ctx = "tqitem" /\ TargetSerial)]
     /\ IF "CANCELED" \in src.dqf THEN Go(t, lv[t].ccont) /\ lv' = lv
        ELSE Wake(t, {"dirty"}, lv[t].ccont)
     /\ UNCHANGED <<lane, exe, kern, cli>>
@@ -230,6 +227,7 @@ ActRes(t) ==
 
 (* =================== _dispatch_queue_class_invoke + _dispatch_source_invoke2 =================== *)
 Own(t) == IF lv[t].onq = "mgr" THEN "mgr" ELSE "tq"
+Rel(e, t) == [e EXCEPT !.tqOwner = IF @ = t THEN NULL ELSE @]
 Done(t) == /\ pc[t] = "done"
            /\ exe' = [exe EXCEPT !.tqOwner = IF @ = t THEN NULL ELSE @]
            /\ Set(t, "idle", L0)
@@ -238,9 +236,9 @@ Done(t) == /\ pc[t] = "done"
 InvLock(t) ==
     /\ pc[t] = "inv_lock"
     /\ IF ~Suspended /\ lane.lock = NULL /\ ~(lv[t].onq = "tq" /\ lane.enq = "mgr")
-       THEN lane' = [lane EXCEPT !.lock = t, !.dirty = FALSE] /\ Go(t, "i_inst")
-       ELSE lane' = [lane EXCEPT !.enq = IF @ = Own(t) THEN "none" ELSE @] /\ Go(t, "done")
-    /\ UNCHANGED <<src, exe, kern, lv, cli, gh>>
+       THEN lane' = [lane EXCEPT !.lock = t, !.dirty = FALSE] /\ Go(t, "i_inst") /\ UNCHANGED <<exe, lv>>
+       ELSE lane' = [lane EXCEPT !.enq = IF @ = Own(t) THEN "none" ELSE @] /\ Set(t, "idle", L0) /\ exe' = Rel(exe, t)
+    /\ UNCHANGED <<src, kern, cli, gh>>
 Ret(t, r) == Set(t, "inv_fin", [lv[t] EXCEPT !.ret = r])
 \* if (!ds->ds_is_installed) { if (dq != dkq) return dkq; _dispatch_source_install }
 IInst(t) ==
@@ -300,7 +298,7 @@ HBody(t) ==
     /\ pc[t] = "h_body"
     /\ \/ /\ HandlerCancels /\ "hcancel" \notin cli.did
           /\ cli' = [cli EXCEPT !.did = @ \cup {"hcancel"}]
-          /\ Set(t, "c_call", [lv[t] EXCEPT !.ctx = "handler", !.ccont = "h_end"])
+          /\ Set(t, "c_or", [lv[t] EXCEPT !.ctx = "handler", !.ccont = "h_end"])
           /\ kern' = kern
        \/ /\ Go(t, "h_end") /\ lv' = lv /\ cli' = cli
           /\ \/ kern' = kern
@@ -381,7 +379,7 @@ IRearm(t) ==
 IResume(t) ==
     /\ pc[t] = "i_resume"
     /\ IF IsTimer THEN /\ src' = [src EXCEPT !.du = IF ~Suspended THEN [@ EXCEPT !.armed = TRUE] ELSE @] /\ kern' = kern
-       ELSE /\ kern' = IF kern.mux /\ kern.reg THEN [kern EXCEPT !.armed = TRUE] ELSE kern /\ src' = src
+       ELSE /\ kern' = (IF kern.mux /\ kern.reg THEN [kern EXCEPT !.armed = TRUE] ELSE kern) /\ src' = src
     /\ Ret(t, lv[t].retq)
     /\ UNCHANGED <<lane, exe, cli, gh>>
 \* back in _dispatch_queue_class_invoke
@@ -390,14 +388,14 @@ InvFin(t) ==
     /\ IF lv[t].ret \in {"tq", "mgr"}
        THEN \* _dispatch_queue_invoke_finish: unlock, DIRTY, re-enqueue on ret unless suspended
             /\ lane' = [lane EXCEPT !.lock = NULL, !.dirty = TRUE, !.enq = IF Suspended THEN "none" ELSE lv[t].ret]
-            /\ exe' = IF Suspended THEN exe ELSE Push(exe, lv[t].ret)
-            /\ Go(t, "done")
+            /\ exe' = Rel(IF Suspended THEN exe ELSE Push(exe, lv[t].ret), t)
+            /\ Set(t, "idle", L0)
        ELSE \* _dispatch_queue_drain_try_unlock(dq, owned, ret == NONE)
-            IF Suspended THEN /\ lane' = [lane EXCEPT !.lock = NULL, !.enq = "none"] /\ exe' = exe /\ Go(t, "done")
-            ELSE IF lane.dirty THEN /\ UNCHANGED <<lane, exe>> /\ Go(t, "inv_xor")
+            IF Suspended THEN /\ lane' = [lane EXCEPT !.lock = NULL, !.enq = "none"] /\ exe' = Rel(exe, t) /\ Set(t, "idle", L0)
+            ELSE IF lane.dirty THEN /\ UNCHANGED <<lane, exe, lv>> /\ Go(t, "inv_xor")
             ELSE /\ lane' = [lane EXCEPT !.lock = NULL, !.enq = "none", !.dirty = (lv[t].ret = "wait")]
-                 /\ exe' = exe /\ Go(t, "done")
-    /\ UNCHANGED <<src, kern, lv, cli, gh>>
+                 /\ exe' = Rel(exe, t) /\ Set(t, "idle", L0)
+    /\ UNCHANGED <<src, kern, cli, gh>>
 \* os_atomic_xor2o(dq_state, DIRTY): on a root queue run invoke2 again, else re-enqueue on the current queue
 InvXor(t) ==
     /\ pc[t] = "inv_xor"
@@ -411,7 +409,7 @@ PopTq(w) ==
     /\ pc[w] = "idle" /\ exe.tqList # <<>> /\ (TargetSerial => exe.tqOwner = NULL)
     /\ exe' = [exe EXCEPT !.tqList = Tail(@), !.tqOwner = IF TargetSerial THEN w ELSE NULL]
     /\ IF Head(exe.tqList) = "src" THEN Set(w, "inv_lock", [L0 EXCEPT !.onq = "tq"])
-       ELSE Set(w, "c_call", [L0 EXCEPT !.onq = "tq", !.ctx = "tqitem", !.ccont = "done"])
+       ELSE Set(w, "c_or", [L0 EXCEPT !.onq = "tq", !.ctx = "tqitem", !.ccont = "done"])
     /\ UNCHANGED <<src, lane, kern, cli, gh>>
 PopMgr ==
     /\ pc[MGR] = "idle" /\ exe.mgrList
@@ -497,7 +495,7 @@ ClCitem == /\ AllowCitem /\ pc[CL] = "idle" /\ "citem" \notin cli.did
 (* ---------------- the foreign thread: cancel / cancel_and_wait ---------------- *)
 CcCancel == /\ pc[CC] = "idle" /\ cli.fcancels < MaxForeign
             /\ cli' = [cli EXCEPT !.fcancels = @ + 1]
-            /\ Set(CC, "c_call", [L0 EXCEPT !.ctx = "foreign", !.ccont = "idle"])
+            /\ Set(CC, "c_or", [L0 EXCEPT !.ctx = "foreign", !.ccont = "idle"])
             /\ UNCHANGED <<src, lane, exe, kern, gh>>
 \* header contract: no cancel handler, not from the target queue, not suspended, not being activated concurrently
 CcCaw == /\ AllowCaw /\ ~HasCancelHandler /\ pc[CC] = "idle" /\ "caw" \notin cli.did
@@ -576,7 +574,7 @@ CawRet ==
 
 (* ================================ next-state ================================ *)
 Lib(t) == WkRead1(t) \/ WkRead2(t) \/ WkRmw(t) \/ WkBcXor(t) \/ UUnreg(t) \/ UDu(t) \/ UFinal(t)
-          \/ CCall(t) \/ COr(t) \/ ActRmw(t) \/ ActFinal(t) \/ ActInst(t) \/ ActRes(t)
+          \/ COr(t) \/ ActRmw(t) \/ ActFinal(t) \/ ActInst(t) \/ ActRes(t)
           \/ Done(t) \/ InvLock(t) \/ IInst(t) \/ IInstall(t) \/ ISusp(t) \/ INdel(t) \/ IDqf(t) \/ IPend(t)
           \/ LXchg(t) \/ HStart(t) \/ HBody(t) \/ HEnd(t) \/ LDqf2(t) \/ LPend2(t) \/ ICancel(t) \/ IDqf3(t)
           \/ ICallout(t) \/ CcTake(t) \/ ChStart(t) \/ ChEnd(t) \/ CcDone(t) \/ IRearm(t) \/ IResume(t)
@@ -595,7 +593,7 @@ FairSpec == /\ Spec
             /\ WF_vars(ClActivate) /\ WF_vars(ClResume)
 
 (* ================================ properties ================================ *)
-PCs == {"idle", "wk_r1", "wk_r2", "wk_rmw", "wk_bcxor", "u_unreg", "u_du", "u_final", "c_call", "c_or",
+PCs == {"idle", "wk_r1", "wk_r2", "wk_rmw", "wk_bcxor", "u_unreg", "u_du", "u_final", "c_or",
         "act_rmw", "act_final", "act_inst", "act_res", "done", "inv_lock", "i_inst", "i_install", "i_susp",
         "i_ndel", "i_dqf", "i_pend", "l_xchg", "h_start", "h_body", "h_end", "l_dqf2", "l_pend2", "i_cancel",
         "i_dqf3", "i_callout", "cc_take", "ch_start", "ch_end", "cc_done", "i_rearm", "i_resume", "inv_fin",
@@ -617,7 +615,6 @@ EnqAssert == \A t \in Threads : pc[t] = "inv_lock" => lane.enq = Own(t)
 \* convergence as a safety property: when nothing can move any more, a cancelled + activated + resumed source is final
 Final == /\ {"CANCELED", "DELETED"} \subseteq src.dqf /\ "CANCEL_WAITER" \notin src.dqf
          /\ (~IsDirect => ~src.du.reg) /\ ~kern.reg /\ ~kern.mux
-         /\ ~src.hnd.ev /\ ~src.hnd.cancel
          /\ (HasCancelHandler => gh.chEnds = 1) /\ gh.hRunning = 0
 Quiescent == /\ \A t \in Threads : pc[t] = "idle"
              /\ exe.tqList = <<>> /\ ~exe.mgrList
